@@ -216,3 +216,97 @@ theorem syncPlan_delivers (h : Hook) : ∀ (n : Nat) (bs : List KBinding), bs.le
           exact i3 c hc
 
 end ShellOp.Startup
+
+namespace ShellOp.Startup
+
+/-- the hook an event of the log belongs to (`unlock` entries name monitors, not hooks) -/
+def Ev.hookOf : Ev → Option Nat
+  | .exec h _ _ => some h
+  | .skip h _ => some h
+  | .unlock _ => none
+  | .enableKube h => some h
+  | .enableSched h => some h
+
+theorem retryLog_hook (t : Task) (sc : List Bool) : ∀ e ∈ retryLog t sc, e.hookOf = none ∨ e.hookOf = some t.hook := by
+  intro e he
+  simp only [retryLog] at he
+  rcases List.mem_append.mp he with he | he
+  · rcases List.mem_append.mp he with he | he
+    · rw [List.eq_of_mem_replicate he]; right; rfl
+    · simp at he; subst he; right; rfl
+  · by_cases h : t.isSync <;> simp [h] at he
+    subst he; left; rfl
+
+theorem syncPlan_hook (stop : Bool) (h : Hook) : ∀ (n : Nat) (bs : List KBinding), bs.length ≤ n → ∀ (sc : List Bool),
+    ∀ e ∈ (syncPlan stop h sc bs).1, e.hookOf = none ∨ e.hookOf = some h.name := by
+  intro n
+  induction n with
+  | zero =>
+    intro bs hl sc e he
+    have : bs = [] := List.length_eq_zero_iff.mp (Nat.le_zero.mp hl)
+    subst this
+    rw [syncPlan] at he; simp at he
+  | succ n ih =>
+    intro bs hl sc e he
+    rcases bs with _ | ⟨b, bs⟩
+    · rw [syncPlan] at he; simp at he
+    · have hl' : bs.length ≤ n := by simp at hl; omega
+      rw [syncPlan] at he
+      split at he
+      · simp only [List.cons_append, List.nil_append, List.mem_cons] at he
+        rcases he with rfl | rfl | he
+        · right; rfl
+        · left; rfl
+        · exact ih bs hl' sc e he
+      · split at he
+        · rcases List.mem_append.mp he with he | he
+          · exact retryLog_hook _ _ e he
+          · exact ih bs hl' _ e he
+        · have hlen : (bs.dropWhile (mergeable stop)).length ≤ n :=
+            Nat.le_trans (List.dropWhile_sublist (l := bs) (mergeable stop)).length_le hl'
+          rcases List.mem_append.mp he with he | he
+          · exact retryLog_hook _ _ e he
+          · exact ih _ hlen _ e he
+
+/-- everything the main queue writes while enabling hook `h` concerns `h` -/
+theorem hookPlan_hook (stop : Bool) (h : Hook) (sc : List Bool) :
+    ∀ e ∈ hookPlan stop h sc, e.hookOf = none ∨ e.hookOf = some h.name := by
+  intro e he
+  simp only [hookPlan] at he
+  rcases List.mem_append.mp he with he | he
+  · by_cases hk : h.kube.isEmpty <;> simp [hk] at he
+    rcases he with rfl | he
+    · right; rfl
+    · exact syncPlan_hook stop h _ _ (Nat.le_refl _) _ e he
+  · by_cases hs : h.sched <;> simp [hs] at he
+    subst he; right; rfl
+
+/-- `unlock` is written only directly behind the successful execution (or the skip) of the same iteration -/
+theorem step_new_events (stop : Bool) (hooks : List Hook) (s : St) :
+    ∃ new, (step stop hooks s).log = s.log ++ new ∧
+      (new = [] ∨ (∃ h, new = [.enableSched h]) ∨ (∃ h, new = [.enableKube h]) ∨
+       (∃ h cs ms, new = [.skip h cs, .unlock ms]) ∨ (∃ h cs, new = [.exec h true cs]) ∨
+       (∃ h cs, new = [.exec h false cs]) ∨ (∃ h cs ms, new = [.exec h false cs, .unlock ms])) := by
+  unfold step
+  split
+  · exact ⟨[], by simp, Or.inl rfl⟩
+  · split
+    · exact ⟨_, rfl, Or.inr (Or.inl ⟨_, rfl⟩)⟩
+    · exact ⟨_, rfl, Or.inr (Or.inr (Or.inl ⟨_, rfl⟩))⟩
+    · split
+      · exact ⟨_, rfl, Or.inr (Or.inr (Or.inr (Or.inl ⟨_, _, _, rfl⟩)))⟩
+      · rename_i t' rest' _
+        split
+        · exact ⟨_, rfl, Or.inr (Or.inr (Or.inr (Or.inr (Or.inl ⟨_, _, rfl⟩))))⟩
+        · by_cases hs : t'.isSync
+          · exact ⟨[.exec t'.hook false t'.ctxs, .unlock t'.mons], by simp [hs],
+              Or.inr (Or.inr (Or.inr (Or.inr (Or.inr (Or.inr ⟨_, _, _, rfl⟩)))))⟩
+          · exact ⟨[.exec t'.hook false t'.ctxs], by simp [hs],
+              Or.inr (Or.inr (Or.inr (Or.inr (Or.inr (Or.inl ⟨_, _, rfl⟩)))))⟩
+        · by_cases hs : t'.isSync
+          · exact ⟨[.exec t'.hook false t'.ctxs, .unlock t'.mons], by simp [hs],
+              Or.inr (Or.inr (Or.inr (Or.inr (Or.inr (Or.inr ⟨_, _, _, rfl⟩)))))⟩
+          · exact ⟨[.exec t'.hook false t'.ctxs], by simp [hs],
+              Or.inr (Or.inr (Or.inr (Or.inr (Or.inr (Or.inl ⟨_, _, rfl⟩)))))⟩
+
+end ShellOp.Startup
